@@ -521,6 +521,32 @@ func (e *evaluator) evalCall(call *ast.CallExpr) *Term {
 	if se, ok := fun.(*ast.SelectorExpr); ok {
 		if sel, ok := info.Selections[se]; ok && sel.Kind() == types.MethodVal {
 			ci.recv = e.eval(se.X)
+			// a method promoted from an embedded field is called on that field
+			if idx := sel.Index(); len(idx) > 1 {
+				T := info.TypeOf(se.X)
+				for _, fi := range idx[:len(idx)-1] {
+					if pt, ok := T.Underlying().(*types.Pointer); ok {
+						T = pt.Elem()
+					}
+					st, ok := T.Underlying().(*types.Struct)
+					if !ok || fi >= st.NumFields() {
+						break
+					}
+					fld := st.Field(fi)
+					name := "." + fld.Name()
+					if sn := namedStruct(T); sn != "" {
+						name = "." + sn + "." + fld.Name()
+					}
+					if isKeeperType(fld.Type()) {
+						ci.recv = atom("K").withType(fld.Type())
+					} else if isCtxType(fld.Type()) {
+						ci.recv = atom("ctx").withType(fld.Type())
+					} else {
+						ci.recv = simplify((&Term{Op: name, A: []*Term{ci.recv}}).withObj(fld).withType(fld.Type()))
+					}
+					T = fld.Type()
+				}
+			}
 		}
 	}
 	for i, a := range call.Args {
